@@ -1,30 +1,200 @@
 package world
 
-// Adversary is the scripted hostile counterparty (filled in by adv_*.go).
+import (
+	"bytes"
+	"encoding/hex"
+	"encoding/json"
+	"fmt"
+	"sort"
+	"strings"
+)
+
+// Adversary is the scripted hostile party. It controls the third party
+// (node 2, never real code) and, when a scenario says Kind[i]=="adv", the
+// counterparty i (see adv_peer.go).
 type Adversary struct {
-	w  *World
-	ID int
-	impl advImpl
+	w    *World
+	ID   int
+	peer *advPeer
 }
 
-type advImpl interface {
-	onMessage(self, from int, typ int, payload []byte)
-	onHTLC(p *Payment, inv *Invoice) string
+func newAdversary(w *World, id int) *Adversary {
+	a := &Adversary{w: w, ID: id}
+	if id < 2 {
+		a.peer = newAdvPeer(a, id)
+	}
+	return a
 }
 
 func (a *Adversary) onMessage(self, from int, typ int, payload []byte) {
-	if a.impl != nil {
-		a.impl.onMessage(self, from, typ, payload)
+	if a.peer != nil && self == a.peer.id {
+		a.peer.onMessage(from, typ, payload)
 	}
 }
 
 func (a *Adversary) onHTLC(p *Payment, inv *Invoice) string {
-	if a.impl != nil {
-		return a.impl.onHTLC(p, inv)
+	if a.peer != nil {
+		return a.peer.onHTLC(p, inv)
 	}
 	return "settle"
 }
 
-func newAdversary(w *World, id int) *Adversary { return &Adversary{w: w, ID: id} }
+func (a *Adversary) start() {
+	if a.peer != nil {
+		a.peer.start()
+	}
+}
 
-func (a *Adversary) start() {}
+// ---------------------------------------------------------------------------
+// Injections: messages built from ground truth at injection time and delivered
+// to a real node, from the third party (node 2) or from the real peer's
+// identity when the peer is adversarial.
+
+// scheduleInjections arms all "inject" moves of the plan.
+func (w *World) scheduleInjections() {
+	for i := range w.Plan.Adv {
+		mv := w.Plan.Adv[i]
+		if mv.Kind != "inject" {
+			continue
+		}
+		w.Sim.After(ms(mv.AtMs), "adv", fmt.Sprintf("inject#%d %s", i, mv.Arg), func() { w.doInject(&mv) })
+	}
+}
+
+// targetSwap picks the which-th (by id order) persisted swap of node; "" if none.
+func (w *World) targetSwap(node int, which int64) (string, *Rec) {
+	n := w.Nodes[node]
+	all := n.AllRaw()
+	var ids []string
+	for id := range all {
+		ids = append(ids, id)
+	}
+	if len(ids) == 0 {
+		return "", nil
+	}
+	sort.Strings(ids)
+	id := ids[int(which)%len(ids)]
+	return id, DecodeRec(all[id])
+}
+
+// doInject: mv.N = target node, mv.M = from node (2 = third party), mv.Arg = template.
+func (w *World) doInject(mv *AdvMove) {
+	to := int(mv.N)
+	from := int(mv.M)
+	if to < 0 || to > 1 || !w.Nodes[to].Real || !w.Nodes[to].Up {
+		return
+	}
+	parts := strings.Split(mv.Arg, ":")
+	tpl := parts[0]
+	variant := ""
+	if len(parts) > 1 {
+		variant = parts[1]
+	}
+	id, rec := w.targetSwap(to, 0)
+	if variant == "fresh" || id == "" {
+		id = hex.EncodeToString(rand32())
+		rec = nil
+	}
+	otherKey := nodeKey(7).PubKey().SerializeCompressed()
+	scid := "100x1x0"
+	if from == 2 {
+		scid = "200x2x0"
+	}
+	chainNet, chainAsset := "regtest", ""
+	if rec != nil && rec.Chain() == "lbtc" {
+		chainNet, chainAsset = "", w.liquidAssetHex()
+	}
+	var typ int
+	var body interface{}
+	switch tpl {
+	case "request-in", "request-out":
+		typ = MsgSwapInRequest
+		if tpl == "request-out" {
+			typ = MsgSwapOutRequest
+		}
+		body = map[string]interface{}{"protocol_version": 7, "swap_id": id, "network": chainNet, "asset": chainAsset, "scid": scid, "amount": 777_777, "pubkey": hex.EncodeToString(otherKey), "acceptable_premium": 1_000_000}
+	case "agreement-in":
+		typ = MsgSwapInAgreement
+		body = map[string]interface{}{"protocol_version": 7, "swap_id": id, "pubkey": hex.EncodeToString(otherKey), "premium": 1}
+	case "agreement-out":
+		typ = MsgSwapOutAgreement
+		body = map[string]interface{}{"protocol_version": 7, "swap_id": id, "pubkey": hex.EncodeToString(otherKey), "payreq": EncodePayreq(strings.Repeat("ab", 32), 1000, 9, w.Nodes[from].Pubkey, 1<<40, id), "premium": 1}
+	case "opening":
+		typ = MsgOpeningTx
+		body = map[string]interface{}{"swap_id": id, "payreq": EncodePayreq(strings.Repeat("cd", 32), 1000, 9, w.Nodes[from].Pubkey, 1<<40, id), "tx_id": strings.Repeat("11", 32), "script_out": 0, "blinding_key": strings.Repeat("22", 32)}
+	case "cancel":
+		typ = MsgCancel
+		body = map[string]interface{}{"swap_id": id, "message": "injected cancel"}
+	case "coop":
+		typ = MsgCoopClose
+		body = map[string]interface{}{"swap_id": id, "message": "injected coop close", "privkey": strings.Repeat("33", 32)}
+	case "junk":
+		typ, payload := junkMessage(variant, id)
+		w.Probe("inject:junk:" + variant)
+		w.Observe(&Obs{Node: from, Kind: "inject", Msg: &MsgObs{From: from, To: to, Type: typ, Payload: payload, SwapID: id, Junk: true}, Str: mv.Arg})
+		w.Nodes[to].deliver(from, typ, payload, -1000-w.injSeq())
+		return
+	default:
+		return
+	}
+	payload, _ := json.Marshal(body)
+	w.Probe("inject:" + tpl)
+	w.Observe(&Obs{Node: from, Kind: "inject", Msg: &MsgObs{From: from, To: to, Type: typ, Payload: payload, SwapID: id}, Str: mv.Arg})
+	w.Nodes[to].deliver(from, typ, payload, -1000-w.injSeq())
+}
+
+func (w *World) injSeq() int { w.injN++; return w.injN }
+
+func (w *World) liquidAssetHex() string {
+	for _, n := range w.Nodes {
+		if n.LiquidOn != nil {
+			return n.LiquidOn.GetAsset()
+		}
+	}
+	return ""
+}
+
+// junkMessage returns messages that must be ignored without any effect.
+func junkMessage(variant, id string) (int, []byte) {
+	switch variant {
+	case "null":
+		return MsgCancel, []byte("null")
+	case "null-request":
+		return MsgSwapOutRequest, []byte("null")
+	case "null-opening":
+		return MsgOpeningTx, []byte("null")
+	case "null-coop":
+		return MsgCoopClose, []byte("null")
+	case "null-agreement":
+		return MsgSwapInAgreement, []byte("null")
+	case "empty-object":
+		return MsgCancel, []byte("{}")
+	case "empty-object-request":
+		return MsgSwapInRequest, []byte("{}")
+	case "array":
+		return MsgCoopClose, []byte("[]")
+	case "string":
+		return MsgOpeningTx, []byte(`""`)
+	case "number":
+		return MsgSwapOutAgreement, []byte("42")
+	case "truncated":
+		return MsgCancel, []byte(`{"swap_id":"` + id[:20])
+	case "short-id":
+		return MsgCancel, []byte(`{"swap_id":"abcd","message":"x"}`)
+	case "odd-id":
+		return MsgCancel, []byte(`{"swap_id":"abc","message":"x"}`)
+	case "even-type":
+		return 42070, []byte(`{"swap_id":"` + id + `","message":"x"}`)
+	case "out-of-range":
+		return 42087, []byte(`{"swap_id":"` + id + `","message":"x"}`)
+	case "low-type":
+		return 1, []byte(`{"swap_id":"` + id + `"}`)
+	case "huge":
+		return MsgCancel, []byte(`{"swap_id":"` + id + `","message":"` + strings.Repeat("A", 101*1024) + `"}`)
+	case "deep":
+		return MsgCancel, []byte(strings.Repeat("[", 5000) + strings.Repeat("]", 5000))
+	case "binary":
+		return MsgCoopClose, bytes.Repeat([]byte{0xff, 0x00, 0x7b}, 50)
+	}
+	return MsgCancel, []byte("nil")
+}
